@@ -233,8 +233,8 @@ func main() {
 		os.Exit(4)
 	}
 	supervise(r)
-	r.Rule("FAMILY 1: scripts = 2 FIXED ones whatever the seed (block headers 1..5 / filter headers 1..3, 4..5 / one more block / its filter header; and the same shape above one filter checkpoint interval: block tip 1203 with the filter store brought to 300, 1100, 1160, then 1207), seeded LONG ones (block tip 1000-2600 first, filter store brought to a drawn height within the last checkpoint interval / anywhere / onto a checkpoint, then as the seeded scripts) and seeded scripts (appends of 1-220 block headers, filter-header batches shaped like writeCFHeadersMsg, single and multi-header rollbacks, reorganisation composites = per block [filter rollback, block rollback], first new header alone, rest as batch) on the real stores sharing one bbolt DB; for EVERY primitive EVERY crash point is taken: before/after each flat-file write, torn at 1 byte / record-1 / one record of a longer batch / record+1 / total-1, after each file truncate, after each index commit; each crash image is opened like a restarting client and must (1) open, (2) hold exactly the entries from before or after the primitive in each store, (3) have whole-record files agreeing with the tips, (4) have by-hash lookups agreeing and no stale entries, (5) keep filter tip <= block tip, (5b) FILTER-HEADER SYNC RESUMES ON A QUIET CHAIN: the REAL block manager is constructed on the reopened stores and STARTED (block handler and filter-header handler goroutines) with one honest scripted peer behind its all-peers query and its batch dispatcher that answers getcfheaders / getcfcheckpt for exactly the image's block chain from the ground truth (filter hash = fixed function of the block hash, header = dsha256(hash || previous header) from the stored genesis filter header; the scripts write exactly these) and announces NO block: at the handler's own quiescent point (it announces, on its goroutine, that it goes to sleep until new block headers arrive) the filter-header store must have reached the block tip and hold the ground truth at every height, the block store must be unchanged; going to sleep with the filter tip below the block tip while block headers are current is a violation (nothing but a block that is not coming wakes it), as is a filter tip that has not moved after 4 getcfheaders rounds to the honest peer; images with level tips are the control (must stay level); (6) let the REAL block manager be constructed on the reopened stores and commit one valid next header handed to its headers handler (tip advances by exactly that header), (7) accept appends that land at the right heights. " +
-		"FAMILY 2: seeded clean header imports (PoW-valid generated chains under 3 parameter presets; start height 0 / effective tip+1 / inside agreeing content; length 5-400; write batch size 1, 2, 7, a divisor, the length; stores pre-filled to block tip 0..120 with the block store ahead of the filter store by 0,1,2,3,5) run through the REAL chainimport import on the real stores with the same crash hooks; EVERY crash point announced during Import is taken; each image must pass (1)-(5) with 'before/after' = the states around the interrupted store call of the importer (so each store holds the pre-import content plus a prefix of the file ending at a durable-step boundary), hold above the prior content only the file's headers, let the block manager be constructed on the crash state, and then RE-RUNNING the same import on the recovered stores must succeed and yield exactly the complete final state, from which (6) and (7) must hold; one image in 4 (seeded) additionally gets (6)-(7) on a second copy of the crash state itself. " +
+	r.Rule("FAMILY 1: scripts = 3 FIXED ones whatever the seed (block headers 1..5 / filter headers 1..3, 4..5 / one more block / its filter header; the same shape above one filter checkpoint interval: block tip 1203 with the filter store brought to 300, 1100, 1160, then 1207; and a HUGE one: block tip 7 / filter tip 4, then ONE WriteHeaders call with 9000 block headers and ONE with 9003 filter headers), seeded HUGE ones (0-3 small seeded ops, ONE append of 2500 / 4100 / 5000 / 9000 / 13000 (+0..96) block headers in a single WriteHeaders call, as the headers import makes them, the filter store brought up in one huge batch / a small then a huge one / a huge one ending below the tip, 2 seeded ops; every index commit such a call makes through the database wrapper is a crash point of its own, their number is counted, not assumed, and the by-hash oracle looks up EVERY stored height), seeded LONG ones (block tip 1000-2600 first, filter store brought to a drawn height within the last checkpoint interval / anywhere / onto a checkpoint, then as the seeded scripts) and seeded scripts (appends of 1-220 block headers, filter-header batches shaped like writeCFHeadersMsg, single and multi-header rollbacks, reorganisation composites = per block [filter rollback, block rollback], first new header alone, rest as batch) on the real stores sharing one bbolt DB; for EVERY primitive EVERY crash point is taken: before/after each flat-file write, torn at 1 byte / record-1 / one record of a longer batch / record+1 / total-1, after each file truncate, after each index commit; each crash image is opened like a restarting client and must (1) open, (2) hold exactly the entries from before or after the primitive in each store, (3) have whole-record files agreeing with the tips, (4) have by-hash lookups agreeing and no stale entries, (5) keep filter tip <= block tip, (5b) FILTER-HEADER SYNC RESUMES ON A QUIET CHAIN: the REAL block manager is constructed on the reopened stores and STARTED (block handler and filter-header handler goroutines) with one honest scripted peer behind its all-peers query and its batch dispatcher that answers getcfheaders / getcfcheckpt for exactly the image's block chain from the ground truth (filter hash = fixed function of the block hash, header = dsha256(hash || previous header) from the stored genesis filter header; the scripts write exactly these) and announces NO block: at the handler's own quiescent point (it announces, on its goroutine, that it goes to sleep until new block headers arrive) the filter-header store must have reached the block tip and hold the ground truth at every height, the block store must be unchanged; going to sleep with the filter tip below the block tip while block headers are current is a violation (nothing but a block that is not coming wakes it), as is a filter tip that has not moved after 4 getcfheaders rounds to the honest peer; images with level tips are the control (must stay level); (6) let the REAL block manager be constructed on the reopened stores and commit one valid next header handed to its headers handler (tip advances by exactly that header), (7) accept appends that land at the right heights. " +
+		"FAMILY 2: seeded clean header imports (PoW-valid generated chains under 3 parameter presets; start height 0 / effective tip+1 / inside agreeing content; length 5-400; write batch size 1, 2, 7, a divisor, the length; stores pre-filled to block tip 0..120 with the block store ahead of the filter store by 0,1,2,3,5) and HUGE imports (files of 2500-13100 PoW-valid headers of the no-retarget preset imported with the importer's DEFAULT write batch size (65536), 70000, the file length, or half the new heights: the importer hands each store ONE (or two) WriteHeaders calls with thousands of headers; case 0 is fixed whatever the seed: stores 6/4, file 5..6004, default batch size) run through the REAL chainimport import on the real stores with the same crash hooks; EVERY crash point announced during Import is taken; each image must pass (1)-(5) with 'before/after' = the states around the interrupted store call of the importer (so each store holds the pre-import content plus a prefix of the file ending at a durable-step boundary), hold above the prior content only the file's headers, let the block manager be constructed on the crash state, and then RE-RUNNING the same import on the recovered stores must succeed and yield exactly the complete final state, from which (6) and (7) must hold; one image in 4 (seeded) additionally gets (6)-(7) on a second copy of the crash state itself. " +
 		"START-UP FAMILY: the start-up itself is crashed on the complete client's real start-up path: neutrino.NewChainService (never started, no peers) runs on an EMPTY data directory with a database wrapper that announces a crash point before and after EVERY write transaction it is asked for, whoever makes it (filter database, header indexes, ban store; their number and order are recorded from the run, not assumed); every flat-file append seen between two such points additionally yields the torn-length images (1 byte / record-1 / ...); the completed start is a point too; the RESTART on each image is NewChainService again with the plain database, and the image must pass (1)-(7) with before = after = {genesis header, genesis filter header} read from the service's own stores, plus the public API: BestBlock = the highest block both chains reach, GetBlockHash(0) = genesis. Scenario 0 is fixed (regtest, defaults); the others draw chain (regtest, simnet, testnet3, mainnet, signet, testnet4), PersistToDisk and a filter-header assertion that agrees / is above the tip; SECOND GENERATION: the restart on a crash image (all images of scenario 0, seeded picks elsewhere) is itself crashed at every one of its own points; real SIGKILL in a child at every point of scenario 0 and two points of each other scenario. In family 1 every second image (and in family 2 the second look at the crash state) is also restarted through NewChainService instead of the two store constructors. " +
 		"BLOCK-MANAGER FAMILY: the multi-store operations are performed by the REAL block manager (newBlockManager on the real stores opened with the same crash hooks; messages handed synchronously to its own handlers), not scripted: REORGANISATIONS (a heavier branch through handleHeadersMsg -> rollBackToHeight -> first new header alone -> rest as batch; depth 1..6, fork point 0..8, filter tip level with the block tip / above / at / below the fork point, 0-2 already-stored headers in front of the branch), CHECKPOINT-MISMATCH ROLLBACKS (headers up to the next checkpoint height with another block there: rollBackToHeight(previous checkpoint or genesis) through both stores), HEADER BATCHES and FILTER-HEADER BATCHES (getUncheckpointedCFHeaders -> writeCFHeadersMsg against one honest scripted peer); 4 FIXED scenarios whatever the seed (depth-1 reorganisation with filter tip == block tip; depth-3 reorganisation with the filter tip one above the fork point, then the filter-header round; checkpoints 4/10, tips 8/8, mismatch at 10; headers 5 / round / 1 / round from genesis) and seeded ones (per 13: 9 reorganisations walking every depth and every filter-tip position, 2 checkpoint mismatches, 2 sync histories); EVERY mutating store call the block manager makes is one durable step (before/after = the store contents around that call), EVERY crash point inside it (index commit, file append with the torn lengths, truncate) and EVERY pause point of the client between the steps (rb.betweenStores, rb.afterBlock, hdr.reorg.afterRollback, hdr.beforeBatchWrite, cf.beforeWrite, cf.afterWrite; before = after) yields an image that must pass (1)-(7); an uninterrupted operation must not panic; real SIGKILL in a child at two points of each fixed scenario and seeded picks. " +
 		"distinct = (family, primitive / store-call kind @ composite / start @ state / block-manager operation [start shape] store call, crash-point class incl. the maker of the interrupted write transaction) plus one mark per import shape, start-up configuration and (rolling-back operation, depth, filter-tip position); non-trivial = every image (each is a distinct on-disk state)")
@@ -550,6 +550,16 @@ func main() {
 	for i := 0; i < len(c08.FixedScripts) && !onlyBM; i++ {
 		sjobs = append(sjobs, sjob{c08.ScriptFixed, c08.FixedScriptSeed0 + int64(i), 0, fmt.Sprintf("fixed-%d", i)})
 	}
+	// Seeded huge scripts (the fixed one is FixedScripts[2]): one append of
+	// several thousand block headers each, the filter store brought up in huge
+	// batches. They come first: their images are the largest.
+	nHuge, nHugeOps := r.Pick(2, 14), 2
+	if onlyBM {
+		nHuge = 0
+	}
+	for i := 0; i < nHuge; i++ {
+		sjobs = append(sjobs, sjob{c08.ScriptHuge, r.Seed*100003 + 70000 + int64(i), nHugeOps, fmt.Sprintf("huge-%d", i)})
+	}
 	for i := 0; i < nLong; i++ {
 		sjobs = append(sjobs, sjob{c08.ScriptLong, r.Seed*100003 + 50000 + int64(i), nLongOps, fmt.Sprintf("long-%d", i)})
 	}
@@ -620,6 +630,10 @@ func main() {
 							r.Case(op.Kind+tag(op)+"|"+p.Class, true)
 							r.Count("crash_images_checked", 1)
 							r.Count("points_"+strings.SplitN(p.Class, "/", 2)[0], 1)
+							if op.Tag == "huge" {
+								r.Count("huge_append_crash_images_checked", 1)
+								r.Count("huge_append_points_"+strings.ReplaceAll(p.Class, "/", "_"), 1)
+							}
 							if sj.kind != c08.ScriptSeeded {
 								r.Count("crash_images_of_fixed_and_long_scripts", 1)
 							}
@@ -632,6 +646,18 @@ func main() {
 						recs = append(recs, pointRec{op, p, before, after})
 					}
 					r.Count("primitives_"+op.Kind, 1)
+					if op.Tag == "huge" {
+						commits := 0
+						for _, p := range cur.pts {
+							if p.Class == "index-commit/after" {
+								commits++
+							}
+						}
+						r.Count("huge_appends_"+op.Kind, 1)
+						r.Count("huge_append_headers_"+op.Kind, int64(op.N))
+						r.Count("huge_append_index_commits_observed_"+op.Kind, int64(commits))
+						r.Mark(fmt.Sprintf("huge-append|%s|thousands:%d|index-commits:%d", op.Kind, op.N/1000, commits))
+					}
 				}
 				run.Close()
 				_ = os.RemoveAll(dir)
@@ -658,6 +684,19 @@ func main() {
 	}()
 
 	// ---- Family 2: the real header import under crashes -------------------
+	nHugeImports := r.Pick(2, 10)
+	if onlyBM {
+		nHugeImports = 0
+	}
+	var longWorld *c14.World
+	longWorldErr := make(chan error, 1)
+	if nHugeImports > 0 {
+		go func() {
+			var err error
+			longWorld, err = c14.NewLongWorld(r.Seed, 0, root, c08.HugeImportMaxHeight())
+			longWorldErr <- err
+		}()
+	}
 	worlds := make([]*c14.World, c14.NumPresets())
 	{
 		errs := make([]error, len(worlds))
@@ -678,6 +717,17 @@ func main() {
 			}
 		}
 	}
+	// The huge import cases (files of several thousand headers, written by the
+	// importer in ONE store call per store) are cut from a longer chain of the
+	// no-retarget preset. Case 0 is fixed whatever the seed.
+	if nHugeImports > 0 {
+		if err := <-longWorldErr; err != nil {
+			fmt.Fprintln(os.Stderr, "C08 long import world:", err)
+			r.Broken("long import world: " + err.Error())
+			r.Finish(12)
+		}
+	}
+	phase("0_import_worlds_built")
 	type impRec struct {
 		op            c08.Op
 		pt            c08.Point
@@ -727,8 +777,15 @@ func main() {
 		go func() {
 			defer wg.Done()
 			for idx := range idxs {
-				sp := c08.GenImportSpec(r.Seed, idx, maxBatches)
-				world := worlds[sp.Preset%len(worlds)]
+				var sp c14.Spec
+				var world *c14.World
+				huge := idx >= c08.HugeImportIdx0
+				if huge {
+					sp, world = c08.GenHugeImportSpec(r.Seed, idx-c08.HugeImportIdx0), longWorld
+				} else {
+					sp = c08.GenImportSpec(r.Seed, idx, maxBatches)
+					world = worlds[sp.Preset%len(worlds)]
+				}
 				dir := filepath.Join(root, fmt.Sprintf("c08-imp-%d", idx))
 				prep, err := c08.PrepareImport(world, sp, dir)
 				if err != nil {
@@ -742,6 +799,19 @@ func main() {
 				nimg := 0
 				steps, points, ierr, pan := c08.RunImportCrashing(prep, -1, filepath.Join(root, fmt.Sprintf("c08-impimg-%d", idx)), func(st *c08.ImportStep) {
 					r.Count("import_store_calls_"+st.Op.Kind+tag(st.Op), 1)
+					if st.Op.N >= 2000 {
+						commits := 0
+						for _, p := range st.Points {
+							if p.Class == "index-commit/after" {
+								commits++
+							}
+						}
+						r.Count("import_huge_store_calls_"+st.Op.Kind, 1)
+						r.Count("import_huge_store_call_headers_"+st.Op.Kind, int64(st.Op.N))
+						r.Count("import_huge_store_call_index_commits_observed_"+st.Op.Kind, int64(commits))
+						r.Count("import_huge_store_call_crash_images", int64(len(st.Points)))
+						r.Mark(fmt.Sprintf("import-huge-call|%s|thousands:%d|index-commits:%d", st.Op.Kind, st.Op.N/1000, commits))
+					}
 					if st.Note != "" {
 						r.Inconclusive("import step outside the file: " + st.Note)
 					}
@@ -776,6 +846,9 @@ func main() {
 						}
 					}
 					r.Count("import_cases", 1)
+					if huge {
+						r.Count("import_huge_cases", 1)
+					}
 					r.Count("import_store_calls", int64(steps))
 					r.Count("import_crash_points", int64(points))
 					r.Mark("import-shape|" + c08.ImportShape(&prep.Spec))
@@ -786,7 +859,7 @@ func main() {
 					impSpecs[idx] = prep.Spec
 				}
 				mu.Unlock()
-				if idx < 3 {
+				if idx < 3 || idx == c08.HugeImportIdx0 {
 					r.Sample(map[string]any{"import_case": prep.Spec, "params": world.Name(), "store_calls": steps, "crash_points": points})
 				}
 				pending.Wait()
@@ -912,6 +985,9 @@ func main() {
 		close(bmIdxs)
 	}()
 
+	for i := 0; i < nHugeImports; i++ { // first: the longest jobs
+		idxs <- c08.HugeImportIdx0 + i
+	}
 	for idx := 0; idx < nImports; idx++ {
 		idxs <- idx
 	}
@@ -1205,6 +1281,9 @@ func main() {
 	wg.Wait()
 	for _, w := range worlds {
 		w.Remove()
+	}
+	if longWorld != nil {
+		longWorld.Remove()
 	}
 	phase("3_import_sigkills_done")
 
